@@ -87,6 +87,9 @@ type Frame struct {
 	Pure   bool
 	V      *VerifyCtx
 	Params []Value
+	// number of captured-variable values that precede the SSA parameters in Params
+	// (closures verified on their own)
+	POff   int
 	loops  map[*ssa.BasicBlock]*loopInfo
 }
 
@@ -161,6 +164,11 @@ func (e *Engine) loadHeap(st *State, obj *smt.Term, key string, t types.Type) Va
 		sv.Cap = e.C.Select(e.heapArr(rs, key+".#cap", smt.BV64), obj)
 		st.Assume(e.validSlice(sv))
 		e.preexisting(st, sv.Region)
+		if len(st.Fresh) > 0 {
+			// like references: a backing array read from the initial heap at an object that
+			// existed at entry is none of the regions allocated since
+			e.preexistingBeforeFresh(st, sv.Region)
+		}
 		return sv
 	case *types.Struct:
 		out := &StructV{T: t}
@@ -968,6 +976,23 @@ func (e *Engine) preexistingBeforeFresh(st *State, r *smt.Term) {
 		if f == r {
 			return
 		}
+	}
+	if r.Op == smt.OSelect && r.Args[0].Op == smt.OStore && entryReachable(r.Args[1]) {
+		// the field array was written in this function (at other objects, as far as the
+		// solver can tell): what the *initial* array holds at an entry-reachable object is
+		// pre-existing all the same
+		base := r.Args[0]
+		for base.Op == smt.OStore {
+			base = base.Args[0]
+		}
+		if base.Op == smt.OVar {
+			r0 := e.C.Select(base, r.Args[1])
+			for _, f := range st.Fresh {
+				st.Assume(e.C.Not(e.C.Eq(r0, f)))
+			}
+			st.Assume(e.C.Or(e.C.Eq(r0, e.i64(0)), e.C.Select(e.allocMap(st), r0)))
+		}
+		return
 	}
 	if r.Op == smt.OSelect && r.Args[0].Op == smt.OVar && entryReachable(r.Args[1]) {
 		// read from an initial (pre-state) heap array at an object that existed at function
